@@ -78,9 +78,19 @@ var bracketRe = regexp.MustCompile(`\[[^\]]*\]`)
 
 // c02Layout is the scenario generator of this engine (shared with the fresh-process child).
 func c02Layout(r *zsimrt.Run) *Layout {
+	if r.Chance("c02-stress", 1, 4) {
+		// attribute stress: a small project in which one attribute is written by every service in the main
+		// file and in 2-3 override files, each time with fresh draws (spelling, keys, values)
+		return GenLayoutForced(r, map[string]bool{"stress": true, "override": true, "include": false, "extends": false, "options": false, "profiles-opt": false, "anchors": false})
+	}
 	L := GenLayout(r)
 	if r.Chance("c02-remote", 1, 3) {
 		addRemote(&G{R: r, feat: map[string]bool{}, L: L}, L)
+	}
+	if r.Chance("c02-cli", 1, 5) {
+		// through cli.ProjectOptions: .env discovery, OS environment, COMPOSE_FILE, default file lookup
+		L.Entry = "cli"
+		c01CliTweaks(&G{R: r, feat: map[string]bool{}, L: L}, L)
 	}
 	return L
 }
